@@ -697,7 +697,7 @@ func (c *specCtx) call(t *ast.CallExpr, n *SpecNode) Val {
 		}
 		v := arg(0)
 		ft := arg(2).T
-		if scalarSort(v.T) != SFn || len(v.L) != 1 || ft == nil || scalarSort(ft) != SFn {
+		if scalarSort(v.T) != SFn || len(v.L) != 1 || ft == nil {
 			return c.fail("captured: unsupported arguments in %q", n.Text)
 		}
 		idx, byRef := -1, false
@@ -719,6 +719,9 @@ func (c *specCtx) call(t *ast.CallExpr, n *SpecNode) Val {
 			return c.fail("captured: no captured variable of type %v among the first three of %s", ft, want)
 		}
 		if !byRef {
+			if scalarSort(ft) != SFn {
+				return c.fail("captured: %v is captured by value and is not a function", ft)
+			}
 			return Val{T: ft, L: []string{app(fmt.Sprintf("fbindfn%d", idx), v.L[0])}}
 		}
 		cell := Val{T: types.NewPointer(ft), L: []string{app(fmt.Sprintf("fbindref%d", idx), v.L[0])}}
